@@ -90,7 +90,7 @@ func (d *driver) stalled(w *worker) {
 	x := args3{a: args, n: n}
 	fn := map[string]int{"single": fClean, "pair": fRel, "triple": fJoin3, "match": fMatch, "iter": fIterParts, "abs": fAbs}[kind]
 	hw := newWorker()
-	hw.record(o, fn, kind+":"+o.classOf(x), "returns", "HANG(no progress for 90s; the reference returns)", vaString(o, o.volAgreeAll(x)), "",
+	hw.record(o, fn, kind+":"+o.classOf(x), "returns", "HANG(no progress for 90s; the reference returns)", o.volCause(x), "",
 		func() example { return example{Args: x.slice(), Want: "returns", Got: "does not return"} }, x.size())
 	d.workers = append(d.workers, hw)
 	d.aborted = fmt.Sprintf("watchdog: %s %s%q never returned", o.name, kind, args[:n])
